@@ -16,7 +16,8 @@ RULE = (
     "model's ordered list, order and names equal after reopen. distinct = event-log digest; non-trivial = >= 2 adds, >= 1 lookup and >= 1 completed save->restart"
 )
 
-LOOKALIKE = ["Table 1", "Table 2", "table 2", "TABLE 3", "Table 4", "Sheet 1", "Sheet 2", "sheet 3", "SHEET 2", "Table 10", "Table  2", "Table 2 ", "Sheet 02"]
+LOOKALIKE = ["Table 1", "Table 2", "table 2", "TABLE 3", "Table 4", "Sheet 1", "Sheet 2", "sheet 3", "SHEET 2", "Table 10", "Table  2", "Table 2 ", "Sheet 02",
+             "Caf\u00e9", "Cafe\u0301", "\u00c5", "\u212b", "A\u030a"]
 
 
 def gen(seed: int, tier: str, idx=None):
